@@ -26,7 +26,8 @@ RULE = ("tables of 1..60 rows per call; rows generated from a known tumour copy 
         "purity < 1; distinct by hash of the case")
 EXHAUSTIVE = {"quick": False, "thorough": False}
 ASSUMPTIONS = ["ratio space: the model receives the exact value of the double 2**log2 computed by Python; "
-               "float rounding inside r*t, /p and np.log2 is covered by the 1e-9 tolerance and the knife-edge rule",
+               "float rounding inside r*t, /p and np.log2 is covered by the 1e-9 tolerance and the knife-edge rule "
+               "(a row is skipped for model equality when its exact copy number is within 1e-9 + 1e-13*cn of a rounding boundary)",
                "inversion clause needs r > 0 (ploidy 1 gives ploidy//2 = 0 on Y / haploid X; such rows carry no n)",
                "command line with the sample sex left out: the model is given the sex that guess_xx infers from the "
                "table as read (C15's subject); the tie then covers verify_sample_sex and the option plumbing",
@@ -108,7 +109,7 @@ def judge(case, impl, resp):
                 if cn is None or cn < 0:
                     spec.append("cn_nonneg")
                     break
-                if _round_slack(q) < Fraction(1, 10 ** 9):
+                if _round_slack(q) < Fraction(1, 10 ** 9) + q / 10 ** 13:
                     sk = "rounding boundary within 1e-9"
                     continue
                 if abs(cn - q) > Fraction(1, 2):
@@ -247,22 +248,33 @@ def corpus():
 SIZES = [1, 1, 2, 3, 5, 12, 24, 40, 40, 60]
 
 
-def _cli_case(rng, nrows=30, force=None):
+SEX_OPTS = [None] + list(K.SEX_MALE) + list(K.SEX_FEMALE)
+
+
+def _cli_case(rng, nrows=30, k=None):
     """the same calls through the command line (`cnvkit.py call` on a written .cns): option parsing, file reading
-    (sorted rows, %.6g values), sample-sex handling and the writer are then inside the tie"""
-    c = _table(rng, nrows, force=dict(force or {}, method="clonal" if rng.random() < 0.9 else "none"))
+    (sorted rows, %.6g values), sample-sex handling and the writer are then inside the tie.  With `k` the case is one
+    of a systematic round over every way of stating the sample sex (8 spellings, or not at all) on a table where the
+    sex matters (purity < 1, ploidy >= 2, X and Y rows)"""
+    force = {"method": "clonal" if rng.random() < 0.9 else "none"}
+    opts = {"implicit": rng.random() < 0.5}
+    if k is not None:
+        sex = SEX_OPTS[k % len(SEX_OPTS)]
+        force.update(method="clonal", purity=rng.choice([0.25, 0.3, 0.5, 0.75, 0.9, round(rng.uniform(0.05, 0.95), 2)]),
+                     ploidy=rng.choice([2, 2, 3, 4, 5, 6]), classes=["auto", "auto", "x", "x", "y", "y"])
+        if sex is not None:
+            force["female"] = sex in K.SEX_FEMALE
+    c = _table(rng, nrows, force=force)
     i = c["in"]
     p = i["purity_f"]
     if p is not None and not (0.0 < p <= 1.0):
         return None
     i["cli"] = True
-    opts = {"implicit": rng.random() < 0.5}
-    k = rng.random()
-    if k < 0.25:
-        opts["sex"] = None  # not stated: inferred by the command itself
-    elif k < 0.9:
-        opts["sex"] = rng.choice(K.SEX_FEMALE if i["female"] else K.SEX_MALE)
-        opts["sex_flag"] = rng.choice(["-x", "--sample-sex", "-g", "--gender"])
+    if k is None:
+        r = rng.random()
+        sex = None if r < 0.2 else rng.choice(K.SEX_FEMALE if i["female"] else K.SEX_MALE)
+    opts["sex"] = sex
+    opts["sex_flag"] = rng.choice(["-x", "--sample-sex", "-g", "--gender"])
     opts["hapx_flag"] = rng.choice(["-y", "--male-reference", "--haploid-x-reference"])
     i["cli_opts"] = opts
     if rng.random() < 0.4:
@@ -270,9 +282,10 @@ def _cli_case(rng, nrows=30, force=None):
     if i["par"] and rng.random() < 0.3:
         i["par_f"] = {"grch37": "GRCh37", "grch38": "GRCh38"}[i["par"]]
     # rows with the same coordinates cannot be told apart after sorting; 6 digits of log2 move the absolute copy
-    # number by at most 12 * 5e-7 / purity: far from a rounding boundary for purity >= 0.02
-    i["keep_n"] = opts.get("sex", "") is not None and (p is None or p >= 0.02)
-    c["tag"] += "-cli" + ("-sex-inferred" if opts.get("sex", "") is None else "")
+    # number by at most 12 * 5e-7 / purity: far from a rounding boundary for purity >= 0.02.  With the sex left out
+    # the n (generated for the case's own sex) says nothing: the model is compared under the inferred sex
+    i["keep_n"] = sex is not None and (p is None or p >= 0.02)
+    c["tag"] += "-cli" + ("-sex-inferred" if sex is None else "")
     return c
 
 
@@ -281,8 +294,10 @@ def gen_cases(rng, tier):
     cases = []
     for _ in range({"quick": 90, "thorough": 1200, "search": 400}[tier]):
         cases.append(_decorate(rng, _table(rng, rng.choice(SIZES))))
-    for _ in range({"quick": 28, "thorough": 240, "search": 28}[tier]):
-        c = _cli_case(rng, rng.choice([1, 2, 10, 30, 30]))
+    ncli = {"quick": 30, "thorough": 270, "search": 30}[tier]
+    for k in range(ncli):
+        # two thirds: the systematic round over the ways to state the sample sex; the rest random configurations
+        c = _cli_case(rng, 30, k) if k < 2 * ncli // 3 else _cli_case(rng, rng.choice([1, 2, 10, 30, 30]))
         if c:
             cases.append(c)
     # the entry points below do_call, called directly (they are public: `export` uses them with purity 1.0)
